@@ -201,6 +201,49 @@ def run(ctx):
                 break
         oa_case(seq, tags=("oa-random",))
 
+    # ---- a trigger and its copy: additions / removals on one leave the order arrays of the other alone ----------------
+    def twin_case(pre, post, kind):
+        ro = oas[kind]
+        ro.reset()
+        for cmd in pre:
+            ro.execute("oa " + ("obs" if cmd == "read" else cmd))
+        orig = ro.t
+        lst = (lambda t: t.effects) if kind == "e" else (lambda t: t.conditions)
+        oarr = (lambda t: list(t.effect_order)) if kind == "e" else (lambda t: list(t.condition_order))
+        st, twin = common.outcome(lambda: ro.tm.copy_trigger(lib.TS.trigger(orig)))
+        if st != "ok":
+            return
+        for a, b, label in ((orig, twin, "original edited, copy read"), (twin, orig, "copy edited, original read")):
+            want_n, want_o = len(lst(b)), oarr(b)
+            ro.t = a
+            for cmd in post:
+                ro.execute("oa " + cmd)
+            own_o = oarr(a)                 # the edited trigger's own order is read first (as any listing of both would)
+            got_n, got_o = len(lst(b)), oarr(b)
+            ok = got_n == want_n and got_o == want_o and sorted(got_o) == list(range(got_n)) and sorted(own_o) == list(range(len(lst(a))))
+            R.case(key=("twin", kind, label) + tuple(pre) + ("|",) + tuple(post), nontrivial=True, tags=("op:order-array-twin",))
+            if not ok:
+                rn.violation({"op": "order-array", "kind": kind, "clause": "order-perm", "how": "trigger and its copy"},
+                             f"{label}: after {pre} / copy_trigger / {post} on the other one, the untouched trigger has {got_n} components "
+                             f"and order {got_o} (was {want_n} / {want_o})", {"env": "oa-twin-" + kind, "pre": list(pre), "post": list(post)}, len(pre) + len(post))
+                break
+        ro.t = orig
+
+    for kind in ("e", "c"):
+        for n0 in (1, 2, 3):
+            for post in (["append"], ["rmat 0"], ["append", "append", "rmat 1"], ["rmat 0", "append"]):
+                twin_case(["append"] * n0 + ["read"], post, kind)
+        for _ in range(ctx.budget(40, 600)):
+            n0 = rng.randrange(1, 5)
+            p = list(range(n0)); rng.shuffle(p)
+            post, n = [], n0
+            for _ in range(rng.randrange(1, 6)):
+                if n and rng.random() < 0.5:
+                    post.append(f"rmat {rng.randrange(n)}"); n -= 1
+                else:
+                    post.append("append"); n += 1
+            twin_case(["append"] * n0 + ["read", f"setorder {show_list(p)}"], post, kind)
+
     rn.flush_violations()
     rn.compare()
     return R.to_json(exhaustive=True)
